@@ -28,6 +28,20 @@ a helper:
   (or, for `self`-rooted chains, before and after an opaque non-log call) are
   different values, so a test repeated after a callback is decided again.
 
+* records: a named tuple is one value however it is read.  A parameter the rule declares as a record (`records=`),
+  and every value built on the path by a named-tuple constructor the program declares (`namedtuple(..)` bound to a class
+  attribute / module name, `NamedTuple` classes; fields by position from the declaration), is read alike through
+  `r.f`, `r[i]`, `r[-1]`, `r[a:b]`, `a, b, c = r`, `a, *rest = r`, `getattr(r, "f")`, `tuple(r)`, `f(*r)`,
+  `r._replace(f=x)`, `C._make((..))`, constructor keywords or positions.  Elements of a container declared in
+  `elem_records=` are read alike through `el.f` and `el[i]` / unpacking.
+* a conditional expression whose pure test the path has not decided splits the path like an `if` (one decision per
+  atomic condition), so `x = a if c else b` and `if c: x = a` / `else: x = b` give the same outcomes; followable calls
+  in the selected arm are followed.
+* a free name of a nested function that denotes a def of an enclosing function (sibling closure) is followed like any
+  other helper that is not part of the confirmed tree.
+* a call that statically denotes a function of the program but was not followed carries `_unfollowed` (that
+  function), so that a rule can refuse instead of judging a value it cannot see.
+
 Nothing is executed; conditions are uninterpreted booleans apart from constant
 folding (`None is None`, boolean constants returned by a helper, a constructor
 call is not None) and declared finite-domain subjects.
@@ -120,6 +134,110 @@ def parse(src):
 
 def origin(e):
     return getattr(e, "_o", e)
+
+
+# ---------------------------------------------------------------------------
+# records: named tuples are read by field name, by position, by unpacking, through getattr -- all the same fact
+
+
+def _decl_fields(decl):
+    """field names by position of a declaration expression `namedtuple("N", ("a", "b"))` / `["a", "b"]` / `"a b"` /
+    `"a, b"` / field_names=..., `typing.NamedTuple("N", [("a", T), ("b", U)])`; None for anything else (rename=True
+    included: the names would not be the ones written)"""
+    if not isinstance(decl, ast.Call) or any(isinstance(a, ast.Starred) for a in decl.args) or any(k.arg is None for k in decl.keywords):
+        return None
+    c = chain(decl.func) or ""
+    last = c.split(".")[-1]
+    kw = {k.arg: k.value for k in decl.keywords}
+    if last == "namedtuple":
+        if "rename" in kw or len(decl.args) > 2:
+            return None
+        spec = decl.args[1] if len(decl.args) > 1 else kw.get("field_names")
+    elif last == "NamedTuple":
+        spec = decl.args[1] if len(decl.args) > 1 else kw.get("fields")
+    else:
+        return None
+    names = None
+    if isinstance(spec, ast.Constant) and isinstance(spec.value, str):
+        names = spec.value.replace(",", " ").split()
+    elif isinstance(spec, (ast.Tuple, ast.List)):
+        names = []
+        for x in spec.elts:
+            if last == "NamedTuple" and isinstance(x, (ast.Tuple, ast.List)) and len(x.elts) == 2:
+                x = x.elts[0]
+            if not (isinstance(x, ast.Constant) and isinstance(x.value, str)):
+                return None
+            names.append(x.value)
+    if not names or len(set(names)) != len(names) or not all(n.isidentifier() and not n.startswith("_") for n in names):
+        return None
+    return tuple(names)
+
+
+def _class_fields(prog, ci):
+    """field names of a class that *is* a named tuple: `class N(NamedTuple): a: T; b: U` or `class N(namedtuple(..)[, ..])`
+    (a subclass that adds no field of its own)"""
+    for b in ci.node.bases:
+        f = _decl_fields(b)
+        if f is not None:
+            return f
+        c = chain(b) or ""
+        if c.split(".")[-1] == "NamedTuple":
+            names = [st.target.id for st in ci.node.body if isinstance(st, ast.AnnAssign) and isinstance(st.target, ast.Name)]
+            return tuple(names) if names else None
+    for q in ci.bases:
+        bi = prog.classes.get(q)
+        if bi is not None and bi is not ci:
+            f = _class_fields(prog, bi)
+            if f is not None:
+                return f
+    return None
+
+
+def record_fields(prog, qn):
+    """field names by position of the named tuple the qualified name denotes (`aiocoap.pipe.Pipe.Event`: a class
+    attribute bound to namedtuple(...), a nested / module-level NamedTuple class, or a module constant); None if the
+    name does not denote a named-tuple declaration"""
+    if not qn.startswith("aiocoap."):
+        qn = "aiocoap." + qn
+    ci = prog.classes.get(qn)
+    if ci is not None:
+        return _class_fields(prog, ci)
+    owner, _, name = qn.rpartition(".")
+    if owner in prog.classes:
+        expr, _ci = prog.class_attr(owner, name)
+        return _decl_fields(expr) if expr is not None else None
+    if owner in prog.modules:
+        try:
+            return _decl_fields(prog.module_const(owner, name))
+        except Exception:
+            return None
+    return None
+
+
+def record_arg(call, field):
+    """the value a record constructor call (a resolved Call the walker recognised as building a named tuple: it carries
+    `_rec`, the declared field names) gives to `field` -- by keyword or by the field's declared position; None when the
+    call is no record construction, has no such field, or leaves it to a default / a * argument"""
+    fields = getattr(call, "_rec", None)
+    if fields is None or field not in fields or not isinstance(call, ast.Call):
+        return None
+    i = fields.index(field)
+    if any(isinstance(a, ast.Starred) for a in call.args) or any(k.arg is None for k in call.keywords):
+        return None
+    if i < len(call.args):
+        return call.args[i]
+    for k in call.keywords:
+        if k.arg == field:
+            return k.value
+    return None
+
+
+def _const_int(e):
+    if isinstance(e, ast.Constant) and type(e.value) is int:
+        return e.value
+    if isinstance(e, ast.UnaryOp) and isinstance(e.op, ast.USub) and isinstance(e.operand, ast.Constant) and type(e.operand.value) is int:
+        return -e.operand.value
+    return None
 
 
 class Event:
@@ -315,8 +433,21 @@ def const_test(e, value):
 
 
 class Walker:
-    def __init__(self, prog, subjects=None, loop_bound=1, max_outcomes=6000, max_depth=4, follow_helpers=True, opaque=None, implicit_cls=None):
+    def __init__(self, prog, subjects=None, loop_bound=1, max_outcomes=6000, max_depth=4, follow_helpers=True, opaque=None, implicit_cls=None, records=None, elem_records=None):
         self.prog = prog
+        # records: {parameter name of the walked function: field names by position} -- the rule's declaration that the
+        # parameter holds a named tuple of that layout; `p[i]`, `a, b, c = p`, `getattr(p, "f")`, `p[:2]`, `tuple(p)` are
+        # then all read as `p.<field>`.  Values *built* on the path by a named-tuple constructor the program declares
+        # (`self.Event(a, b, c)`) are recognised without a declaration and read back as their arguments.
+        self.records = dict(records or {})
+        # elem_records: {attribute chain of a container: field names by position of the named tuples it holds}; a field
+        # read `el.f` of an element drawn from the container (or from a snapshot of it) is then read as `el[i]` -- the
+        # form an unpacking `for a, b in container` resolves to as well
+        self.elem_records = dict(elem_records or {})
+        self.rec_uses = 0  # how often a positional / unpacking read of a declared record parameter was normalised
+        self.root = None
+        self._ctor_cache = {}
+        self._ifexp_cache = {}  # id(expr) -> (contains a conditional expression, expr kept alive)
         # class of the implicit exceptions: None = an arbitrary Exception (every handler may take it, a handler for
         # Exception certainly does); a class name = exactly that class (handlers are selected through the hierarchy)
         self.implicit_cls = implicit_cls
@@ -332,6 +463,7 @@ class Walker:
 
     # ------------------------------------------------------------------ public
     def run(self, fi, env=None):
+        self.root = fi
         fr = _Frame(fi, self._clsqn(fi), (), 0)
         outs = []
         for kind, val, st, env2 in self._run(fr, dict(env or {}), _St()):
@@ -456,6 +588,196 @@ class Walker:
             return None
         return self.cls_of(e)
 
+    # ------------------------------------------------------------------ records
+    def _within_root(self, fi):
+        while fi is not None:
+            if fi is self.root:
+                return True
+            fi = fi.parent
+        return False
+
+    def rec_fields(self, v):
+        """declared field names (by position) when the resolved value v is known to be a named tuple: a parameter of
+        the walked function the rule declared as one (read free, i.e. not rebound on the path, not a lambda's own
+        parameter, not a name of a followed helper), a constructor call of a named-tuple declaration, or the result
+        of `_replace` on either"""
+        if isinstance(v, ast.Name):
+            if v.id in self.records and getattr(v, "_inst", None) is None and not getattr(v, "_lam", False) and not hasattr(v, "_closure") \
+                    and self._within_root(getattr(v, "_fi", None)):
+                return self.records[v.id]
+            return None
+        if isinstance(v, (ast.Call, ast.Tuple)):
+            return getattr(v, "_rec", None)
+        return None
+
+    def elem_layout(self, v):
+        """field names when v is an element drawn from a container declared in elem_records (directly, from a slice /
+        list() / tuple() / reversed() / sorted() / .copy() snapshot of it, or through enumerate())"""
+        if not self.elem_records:
+            return None
+        if isinstance(v, ast.Subscript) and isinstance(v.slice, ast.Constant) and v.slice.value == 1 and isinstance(v.value, ast.Call) and hasattr(v.value, "_elem_of"):
+            it = v.value._elem_of
+            if isinstance(it, ast.Call) and chain(it.func) == "enumerate" and it.args:
+                return self._container_layout(it.args[0])
+            return None
+        if isinstance(v, ast.Call) and hasattr(v, "_elem_of"):
+            return self._container_layout(v._elem_of)
+        return None
+
+    def _container_layout(self, it):
+        for _ in range(6):
+            c = chain(it)
+            if c is not None:
+                return self.elem_records.get(c)
+            if isinstance(it, ast.Subscript) and isinstance(it.slice, ast.Slice):
+                it = it.value
+            elif isinstance(it, ast.Call) and chain(it.func) in ("list", "tuple", "reversed", "sorted") and len(it.args) == 1 and not it.keywords:
+                it = it.args[0]
+            elif isinstance(it, ast.Call) and isinstance(it.func, ast.Attribute) and it.func.attr == "copy" and not it.args:
+                it = it.func.value
+            else:
+                return None
+        return None
+
+    def ctor_layout(self, fi, call):
+        """field names when the (unresolved) call expression, written in function fi, constructs a named tuple"""
+        if not isinstance(call, ast.Call):
+            return None
+        f = clone(call.func)
+        for n in ast.walk(f):
+            n._fi = fi
+        return self._ctor_fields(f)
+
+    def _ctor_fields(self, func):
+        """field names when the resolved callee denotes a named-tuple declaration of the program: `self.Event`,
+        `cls.Event`, `type(self).Event`, `self.__class__.Event`, `Pipe.Event`, `pipe.Pipe.Event`, a module-level or
+        imported name -- resolved in the module (and class) the expression was written in"""
+        fi = getattr(func, "_fi", None)
+        if fi is None or not isinstance(func, (ast.Name, ast.Attribute)):
+            return None
+        c = chain(func)
+        if c is None:
+            b = func.value if isinstance(func, ast.Attribute) else None
+            if isinstance(b, ast.Call) and chain(b.func) == "type" and len(b.args) == 1 and not b.keywords and chain(b.args[0]) in ("self", "cls"):
+                c = "self." + func.attr
+            else:
+                return None
+        parts = c.split(".")
+        if parts[0] in ("self", "cls") and len(parts) > 2 and parts[1] == "__class__":
+            parts = [parts[0]] + parts[2:]
+        own = parts[0] in ("self", "cls")
+        clsqn = self._clsqn(fi) if own else None
+        key = (fi.module.name, clsqn, ".".join(parts))
+        if key in self._ctor_cache:
+            return self._ctor_cache[key]
+        res = None
+        if own:
+            if clsqn is not None and len(parts) == 2:
+                expr, _ci = self.prog.class_attr(clsqn, parts[1])
+                if expr is not None:
+                    res = _decl_fields(expr)
+                else:
+                    for q in self.prog.mro(clsqn):
+                        ci = self.prog.classes.get(q + "." + parts[1])
+                        if ci is not None:
+                            res = _class_fields(self.prog, ci)
+                            break
+        else:
+            q = self.prog.resolve_in_module(fi.module, ".".join(parts))
+            if q.startswith("aiocoap."):
+                res = record_fields(self.prog, q)
+        self._ctor_cache[key] = res
+        return res
+
+    def _mk_attr(self, v, attr, node, fr, st):
+        """the (versioned) read of attribute attr of the resolved value v"""
+        new = self._tag(ast.Attribute(value=v, attr=attr, ctx=ast.Load()), node, fr)
+        kt = K(new)
+        ver = st.ver.get(kt, 0) if st is not None else 0
+        root = v
+        while isinstance(root, (ast.Attribute, ast.Subscript)):
+            root = root.value
+        ep = st.epoch if (st is not None and isinstance(root, ast.Name) and root.id in ("self", "cls") and getattr(root, "_inst", None) is None) else 0
+        if ver or ep:
+            new._tag = (ver, ep)
+            new._k = None
+        return new
+
+    def _known_len(self, v):
+        """number of components of a value whose layout is known: a record, or a tuple / list display"""
+        f = self.rec_fields(v)
+        if f is not None:
+            if isinstance(v, ast.Tuple) and (len(v.elts) != len(f) or any(isinstance(x, ast.Starred) for x in v.elts)):
+                return None
+            return len(f)
+        if isinstance(v, (ast.Tuple, ast.List)) and not any(isinstance(x, ast.Starred) for x in v.elts):
+            return len(v.elts)
+        return None
+
+    def _component(self, v, i, node, fr, st):
+        """component i (0 <= i < known length) of v: a record parameter's component is the read of the field declared
+        at that position, a constructed record's is the constructor argument, a display's its element; None: unknown"""
+        f = self.rec_fields(v)
+        if f is not None:
+            if isinstance(v, ast.Name):
+                self.rec_uses += 1
+                return self._mk_attr(v, f[i], node, fr, st)
+            if isinstance(v, ast.Tuple):
+                return v.elts[i]
+            return record_arg(v, f[i])
+        if isinstance(v, (ast.Tuple, ast.List)):
+            return v.elts[i]
+        return None
+
+    def _components(self, v, node, fr, st):
+        n = self._known_len(v)
+        if n is None:
+            return None
+        parts = [self._component(v, i, node, fr, st) for i in range(n)]
+        return None if any(x is None for x in parts) else parts
+
+    def _subscript(self, v, sl, node, fr, st):
+        """`v[<constant index>]` / `v[<constant slice>]` of a value with known layout -> the component(s); else None"""
+        n = self._known_len(v)
+        if n is None:
+            return None
+        i = _const_int(sl)
+        if i is not None:
+            return self._component(v, i % n, node, fr, st) if -n <= i < n else None
+        if isinstance(sl, ast.Slice):
+            bounds = []
+            for b in (sl.lower, sl.upper, sl.step):
+                bi = None if b is None else _const_int(b)
+                if b is not None and bi is None:
+                    return None
+                bounds.append(bi)
+            if bounds[2] == 0:
+                return None
+            parts = [self._component(v, j, node, fr, st) for j in range(n)[slice(*bounds)]]
+            if any(x is None for x in parts):
+                return None
+            return self._tag((ast.List if isinstance(v, ast.List) else ast.Tuple)(elts=parts, ctx=ast.Load()), node, fr)
+        return None
+
+    def _replaced(self, v, kws, node, fr, st):
+        """`v._replace(f=x, ..)` of a record -> the record with those fields exchanged (a constructor call again when v
+        is one, else a tuple that remembers its layout)"""
+        f = self.rec_fields(v)
+        if f is None or any(k.arg is None or k.arg not in f for k in kws):
+            return None
+        parts = self._components(v, node, fr, st)
+        if parts is None:
+            return None
+        given = {k.arg: k.value for k in kws}
+        elts = [given.get(name, old) for name, old in zip(f, parts)]
+        if isinstance(v, ast.Call):
+            new = self._tag(ast.Call(func=v.func, args=elts, keywords=[]), node, fr)
+            new._pure, new._inst = True, None
+        else:
+            new = self._tag(ast.Tuple(elts=elts, ctx=ast.Load()), node, fr)
+        new._rec = f
+        return new
+
     # ------------------------------------------------------------------ resolution
     def _tag(self, new, node, fr):
         new._o = getattr(node, "_o", node)
@@ -477,17 +799,24 @@ class Walker:
             return self._tag(ast.Constant(value=e.value), e, fr)
         if isinstance(e, ast.Attribute):
             v = R(e.value)
-            new = self._tag(ast.Attribute(value=v, attr=e.attr, ctx=ast.Load()), e, fr)
-            kt = K(new)
-            ver = st.ver.get(kt, 0)
-            root = v
-            while isinstance(root, (ast.Attribute, ast.Subscript)):
-                root = root.value
-            ep = st.epoch if (isinstance(root, ast.Name) and root.id in ("self", "cls") and getattr(root, "_inst", None) is None) else 0
-            if ver or ep:
-                new._tag = (ver, ep)
-                new._k = None
-            return new
+            if isinstance(v, (ast.Call, ast.Tuple)):
+                # a field of a record built on this path is what the constructor was given for it
+                f = self.rec_fields(v)
+                if f is not None and e.attr in f and self._known_len(v) is not None:
+                    r = self._component(v, f.index(e.attr), e, fr, st)
+                    if r is not None:
+                        return r
+            lay = self.elem_layout(v)
+            if lay is not None and e.attr in lay:
+                return self._index(v, lay.index(e.attr), e, fr, st)
+            return self._mk_attr(v, e.attr, e, fr, st)
+        if isinstance(e, ast.Subscript):
+            v = R(e.value)
+            sl = R(e.slice)
+            r = self._subscript(v, sl, e, fr, st)
+            if r is not None:
+                return r
+            return self._tag(ast.Subscript(value=v, slice=sl, ctx=ast.Load()), e, fr)
         if isinstance(e, ast.Await):
             v = R(e.value)
             new = self._tag(ast.Await(value=v), e, fr)
@@ -503,9 +832,37 @@ class Walker:
                 st.epoch += 1
             return new
         if isinstance(e, ast.Call):
+            if isinstance(e.func, ast.Name) and e.func.id == "getattr" and env.get("getattr") is None and len(e.args) == 2 and not e.keywords \
+                    and isinstance(e.args[1], (ast.Constant, ast.Name)):
+                # getattr(x, "name") is x.name
+                nm = R(e.args[1])
+                if isinstance(nm, ast.Constant) and isinstance(nm.value, str) and nm.value.isidentifier():
+                    a_ = ast.Attribute(value=e.args[0], attr=nm.value, ctx=ast.Load())
+                    a_._o, a_._fi = origin(e), getattr(e, "_fi", fr.fi)
+                    return R(a_)
             func = R(e.func)
             args = [R(a) for a in e.args]
             kws = [self._tag(ast.keyword(arg=k.arg, value=R(k.value)), k, fr) for k in e.keywords]
+            if any(isinstance(a, ast.Starred) for a in args):
+                # f(*t) with t of known layout is f(t0, t1, ..)
+                flat = []
+                for a in args:
+                    parts = self._components(a.value, e, fr, st) if isinstance(a, ast.Starred) else None
+                    flat.extend(parts if parts is not None else [a])
+                args = flat
+            if isinstance(func, ast.Name) and func.id in ("tuple", "list") and len(args) == 1 and not kws and self.rec_fields(args[0]) is not None:
+                # tuple(record): its components in declared order
+                parts = self._components(args[0], e, fr, st)
+                if parts is not None:
+                    return self._tag((ast.List if func.id == "list" else ast.Tuple)(elts=parts, ctx=ast.Load()), e, fr)
+            if isinstance(func, ast.Attribute) and func.attr == "_replace" and not args:
+                r = self._replaced(func.value, kws, e, fr, st)
+                if r is not None:
+                    return r
+            if isinstance(func, ast.Attribute) and func.attr == "_make" and len(args) == 1 and not kws and self._ctor_fields(func.value) is not None:
+                parts = self._components(args[0], e, fr, st)
+                if parts is not None and len(parts) == len(self._ctor_fields(func.value)):
+                    func, args = func.value, parts
             for _ in range(3):
                 # calling functools.partial(f, a.., k=v..) with (b..) is calling f(a.., b.., k=v..)
                 if isinstance(func, ast.Call) and chain(func.func) in ("functools.partial", "partial") and func.args and not any(isinstance(x, ast.Starred) for x in func.args) \
@@ -520,6 +877,18 @@ class Walker:
             fname = chain(func) or ""
             pure = fname in PURE_FUNCS or (isinstance(func, ast.Attribute) and (func.attr in PURE_METHODS or func.attr.startswith("is_")))
             new._pure = pure
+            rec = self._ctor_fields(func)
+            if rec is not None:
+                new._rec = rec
+            if not pure and isinstance(e.func, (ast.Name, ast.Attribute)):
+                # a call the walk did not follow although it denotes a function of the analysed program: its result and
+                # its effects are unknown to the rules (`_unfollowed`: that function)
+                try:
+                    cal = self._callee(e, env, fr, strict=False)
+                except Exception:
+                    cal = None
+                if cal is not None and cal[0] in ("plain", "method", "closure"):
+                    new._unfollowed = cal[1] if cal[0] != "closure" else cal[1]._closure[2]
             if quiet:
                 new._inst = None
                 return new
@@ -540,6 +909,12 @@ class Walker:
             if a.kwarg:
                 bound.add(a.kwarg.arg)
             env2 = {k: v for k, v in env.items() if k not in bound}
+            for b in bound:
+                if b in self.records:
+                    # the lambda's own parameter, not the record parameter of the walked function
+                    own = self._tag(ast.Name(id=b, ctx=ast.Load()), e, fr)
+                    own._lam = True
+                    env2[b] = own
             body = self._R(e.body, env2, fr, st, [], True, repl, maybe)
             new = self._tag(ast.Lambda(args=a, body=body), e, fr)
             new._cenv = env
@@ -613,9 +988,12 @@ class Walker:
             st.n += 1
         return el
 
-    def _index(self, v, i, node, fr):
-        if isinstance(v, (ast.Tuple, ast.List)) and not any(isinstance(x, ast.Starred) for x in v.elts) and i < len(v.elts):
-            return v.elts[i]
+    def _index(self, v, i, node, fr, st=None):
+        n = self._known_len(v)
+        if n is not None and i < n:
+            r = self._component(v, i, node, fr, st)
+            if r is not None:
+                return r
         s = ast.Subscript(value=v, slice=ast.Constant(value=i), ctx=ast.Load())
         s._o = getattr(node, "_o", node)
         s._fi = fr.fi
@@ -627,12 +1005,23 @@ class Walker:
             env[t.id] = v
         elif isinstance(t, (ast.Tuple, ast.List)):
             if any(isinstance(x, ast.Starred) for x in t.elts):
+                comps = self._components(v, t, fr, st)
+                stars = [j for j, x in enumerate(t.elts) if isinstance(x, ast.Starred)]
+                if comps is not None and len(stars) == 1 and len(comps) >= len(t.elts) - 1:
+                    # `first, *rest = v` with v of known layout: exact
+                    j = stars[0]
+                    tail = len(t.elts) - 1 - j
+                    mid = self._tag(ast.List(elts=comps[j:len(comps) - tail], ctx=ast.Load()), t, fr)
+                    vals_ = comps[:j] + [mid] + comps[len(comps) - tail:]
+                    for x, p in zip(t.elts, vals_):
+                        self._bind_target(x.value if isinstance(x, ast.Starred) else x, p, env, fr, st, evs, stmt)
+                    return
                 for x in t.elts:
                     y = x.value if isinstance(x, ast.Starred) else x
                     self._bind_target(y, self._elem(v, t, fr, st), env, fr, st, evs, stmt)
                 return
             # right-hand sides are evaluated before any target is bound
-            parts = [self._index(v, i, t, fr) for i in range(len(t.elts))]
+            parts = [self._index(v, i, t, fr, st) for i in range(len(t.elts))]
             for x, p in zip(t.elts, parts):
                 self._bind_target(x, p, env, fr, st, evs, stmt)
         elif isinstance(t, (ast.Attribute, ast.Subscript)):
@@ -848,9 +1237,13 @@ class Walker:
                 n += 1
         return n > 1
 
-    def _callee(self, call, env, fr):
+    def _callee(self, call, env, fr, strict=True):
         """-> (kind, FuncInfo|value, recv expr or None) for a call that is followed, else None.
-        kind: plain (no implicit receiver) | method (receiver bound to first parameter) | lambda | closure"""
+        kind: plain (no implicit receiver) | method (receiver bound to first parameter) | lambda | closure
+        strict=False: the function of the analysed program the call statically denotes, whether or not the walk may
+        follow it (confirmed-tree functions, decorated / overridden / generator helpers included)"""
+        ok = (lambda fi: True) if not strict else self._followable
+        over = (lambda q, n: False) if not strict else self._overridden
         f = call.func
         if isinstance(f, ast.Name):
             v = env.get(f.id)
@@ -858,12 +1251,26 @@ class Walker:
                 return ("lambda", v, None)
             if isinstance(v, ast.Name) and hasattr(v, "_closure"):
                 fi = v._closure[2]
-                return ("closure", v, None) if self._followable(fi) else None
+                return ("closure", v, None) if ok(fi) else None
             if v is not None:
                 return None
+            # a free name of a nested function: a def of an enclosing function (sibling closure), bound there exactly once
+            scope = fr.fi
+            while scope is not None:
+                if _binds_local(scope.node, f.id):
+                    return None  # a local of this scope the walk has no value for
+                outer = scope.parent
+                if outer is None:
+                    break
+                fi = self.prog.funcs.get(outer.qn + ".<locals>." + f.id)
+                if fi is not None:
+                    if (outer.qn + ".<locals>." + f.id + "#2") in self.prog.funcs or _binds_local(outer.node, f.id, defs=False) or not ok(fi):
+                        return None
+                    return ("plain", fi, None)
+                scope = outer
             q = self.prog.resolve_in_module(fr.fi.module, f.id)
             fi = self.prog.funcs.get(q)
-            if fi is not None and fi.cls is None and fi.parent is None and self._followable(fi):
+            if fi is not None and fi.cls is None and fi.parent is None and ok(fi):
                 return ("plain", fi, None)
             return None
         if isinstance(f, ast.Attribute):
@@ -872,7 +1279,7 @@ class Walker:
             rt = chain(rv) if rv is not None else (ast.unparse(recv) if not isinstance(recv, ast.Call) or ast.unparse(recv) in ("type(self)",) else None)
             if rt in ("self", "cls", "type(self)", "self.__class__") and fr.clsqn is not None:
                 fi = self.prog.lookup_method(fr.clsqn, f.attr)
-                if fi is None or not self._followable(fi) or self._overridden(fi.cls.qn, f.attr):
+                if fi is None or not ok(fi) or over(fi.cls.qn, f.attr):
                     return None
                 dk = _inline._decorator_kind(fi.node)
                 if dk == "static":
@@ -883,14 +1290,14 @@ class Walker:
                 q = self.prog.resolve_in_module(fr.fi.module, c)
                 if q in self.prog.classes:
                     fi = self.prog.lookup_method(q, f.attr)
-                    if fi is None or not self._followable(fi) or self._overridden(fi.cls.qn, f.attr):
+                    if fi is None or not ok(fi) or over(fi.cls.qn, f.attr):
                         return None
                     dk = _inline._decorator_kind(fi.node)
                     if dk == "class":
                         return ("method", fi, recv)
                     return ("plain", fi, None)
                 fi = self.prog.funcs.get(q + "." + f.attr)
-                if fi is not None and fi.cls is None and fi.parent is None and self._followable(fi):
+                if fi is not None and fi.cls is None and fi.parent is None and ok(fi):
                     return ("plain", fi, None)
         return None
 
@@ -951,7 +1358,87 @@ class Walker:
                 env[p] = dflt[p]
         return True
 
-    def _candidates(self, exprs, env, fr):
+    def _quiet_truth(self, test, env, fr, st):
+        """(resolved test, its truth under the path's decisions) without recording anything"""
+        t = self._R(test, dict(env), fr, st.fork(), [], quiet=True)
+        return t, self._truth(t, st.dec, st.vals)
+
+    def _pure_test(self, e):
+        """evaluating e twice gives the same value and has no effect: no call other than the pure built-ins / `is_*()`
+        queries, no await, no walrus"""
+        for n in ast.walk(e):
+            if isinstance(n, (ast.Await, ast.NamedExpr, ast.Yield, ast.YieldFrom, ast.Lambda, ast.ListComp, ast.SetComp, ast.DictComp, ast.GeneratorExp)):
+                return False
+            if isinstance(n, ast.Call):
+                f = n.func
+                if not ((isinstance(f, ast.Name) and f.id in PURE_FUNCS) or (isinstance(f, ast.Attribute) and (f.attr in PURE_METHODS or f.attr.startswith("is_")))):
+                    return False
+        return True
+
+    def _undecided_leaf(self, t, st):
+        """first atomic condition (in evaluation order) of the resolved boolean expression t the path has not decided"""
+        if isinstance(t, ast.BoolOp):
+            for v in t.values:
+                r = self._undecided_leaf(v, st)
+                if r is not None:
+                    return r
+                tv = self._truth(v, st.dec, st.vals)
+                if (isinstance(t.op, ast.And) and tv is False) or (isinstance(t.op, ast.Or) and tv is True):
+                    return None
+            return None
+        if isinstance(t, ast.UnaryOp) and isinstance(t.op, ast.Not):
+            return self._undecided_leaf(t.operand, st)
+        if isinstance(t, ast.IfExp):
+            r = self._undecided_leaf(t.test, st)
+            if r is not None:
+                return r
+            tv = self._truth(t.test, st.dec, st.vals)
+            return self._undecided_leaf(t.body if tv else t.orelse, st) if tv is not None else None
+        if isinstance(t, ast.Compare) and len(t.ops) > 1:
+            return None
+        if isinstance(t, ast.Call) and chain(t.func) == "bool" and len(t.args) == 1 and not t.keywords:
+            return self._undecided_leaf(t.args[0], st)
+        return t if self._truth(t, st.dec, st.vals) is None else None
+
+    def _open_ifexp(self, exprs, env, fr, st):
+        """the first conditional expression (evaluation order, outside lambdas / comprehensions) among the statement's
+        expressions whose test the path has not decided and which is pure -> (resolved undecided leaf, IfExp node)"""
+        found = []
+
+        def visit(n):
+            if found or isinstance(n, (ast.Lambda, ast.FunctionDef, ast.AsyncFunctionDef, ast.ClassDef, ast.ListComp, ast.SetComp, ast.DictComp, ast.GeneratorExp)):
+                return
+            if isinstance(n, ast.IfExp):
+                visit(n.test)
+                if found:
+                    return
+                if not self._pure_test(n.test):
+                    return
+                t, tv = self._quiet_truth(n.test, env, fr, st)
+                if tv is None:
+                    leaf = self._undecided_leaf(t, st)
+                    if leaf is not None:
+                        found.append((leaf, n))
+                    return
+                visit(n.body if tv else n.orelse)
+                return
+            if isinstance(n, ast.NamedExpr):
+                # binds a name the later tests may read: stop looking (the old, unsplit evaluation applies)
+                found.append(None)
+                return
+            for c in ast.iter_child_nodes(n):
+                visit(c)
+
+        for e in exprs:
+            if e is not None and not found:
+                has = self._ifexp_cache.get(id(e))
+                if has is None:
+                    has = self._ifexp_cache[id(e)] = (any(isinstance(x, ast.IfExp) for x in ast.walk(e)), e)
+                if has[0]:
+                    visit(e)
+        return found[0] if found else None
+
+    def _candidates(self, exprs, env, fr, st=None):
         """followable calls inside the expressions, innermost / leftmost first -> [(call, await-or-None, callee)]"""
         if not self.follow or fr.depth >= self.max_depth:
             return []
@@ -962,6 +1449,12 @@ class Walker:
                 return
             if isinstance(n, (ast.IfExp,)):
                 visit(n.test, n)
+                if st is not None and self._pure_test(n.test):
+                    # the arm the path's decisions select is evaluated unconditionally on this path
+                    _t, tv = self._quiet_truth(n.test, env, fr, st)
+                    if tv is not None:
+                        arm = n.body if tv else n.orelse
+                        visit(arm, n)
                 return
             if isinstance(n, ast.BoolOp):
                 visit(n.values[0], n)
@@ -1000,7 +1493,28 @@ class Walker:
     def _eval(self, fr, exprs, env, st, nid=None):
         """resolve a statement's expressions, following helper calls.
         yields (values, env, st, evs, exc): exc is the value of an explicit exception leaving a followed helper"""
-        cands = self._candidates(exprs, env, fr)
+        # a conditional expression whose (pure) test the path has not decided is a branch: `x = a if c else b` is
+        # `if c: x = a` / `else: x = b` -- one path per outcome, the decision recorded like that of an `if`
+        sp = self._open_ifexp(exprs, env, fr, st) if any(e is not None for e in exprs) else None
+        if sp is not None:
+            leaf, node = sp
+            stt = self._subject_test(leaf)
+            if stt is not None and stt[0] not in st.vals:
+                for val in self.subjects[stt[0]]:
+                    st2 = st.fork()
+                    st2.vals[stt[0]] = val
+                    yield from self._eval(fr, exprs, env, st2, nid)
+                return
+            if stt is None:
+                k, pol = atom_key(_plain(leaf))
+                if k not in st.dec:
+                    for outcome in (True, False):
+                        st2 = st.fork()
+                        st2.dec[k] = outcome == pol
+                        st2.decl = st2.decl + (Dec(leaf, outcome, k, len(st2.events), node, fr.fi),)
+                        yield from self._eval(fr, exprs, env, st2, nid)
+                    return
+        cands = self._candidates(exprs, env, fr, st)
         if not cands:
             st2 = st.fork()
             env2 = dict(env)
@@ -1366,6 +1880,41 @@ class Walker:
             st2.dec[k] = outcome == pol
             st2.decl = st2.decl + (Dec(v, outcome, k, len(st2.events), node.ast, fr.fi),)
             todo.append((d, env, st2, visits))
+
+
+def _binds_local(fnode, name, defs=True):
+    """does the function bind `name` in its own scope: a parameter, an assignment / for / with / except / import / walrus
+    target, (defs=True) a nested def or class of that name"""
+    if isinstance(fnode, ast.Lambda) or not hasattr(fnode, "args"):
+        a = getattr(fnode, "args", None)
+    else:
+        a = fnode.args
+    if a is not None:
+        names = [x.arg for x in a.posonlyargs + a.args + a.kwonlyargs] + [x.arg for x in (a.vararg, a.kwarg) if x is not None]
+        if name in names:
+            return True
+    if isinstance(fnode, ast.Lambda):
+        return False
+    todo = list(fnode.body)
+    while todo:
+        n = todo.pop()
+        if isinstance(n, (ast.FunctionDef, ast.AsyncFunctionDef, ast.ClassDef)):
+            if defs and n.name == name:
+                return True
+            continue
+        if isinstance(n, ast.Lambda):
+            continue
+        if isinstance(n, ast.Name) and isinstance(n.ctx, (ast.Store, ast.Del)) and n.id == name:
+            return True
+        if isinstance(n, ast.ExceptHandler) and n.name == name:
+            return True
+        if isinstance(n, (ast.Import, ast.ImportFrom)) and any((al.asname or al.name.split(".")[0]) == name for al in n.names):
+            return True
+        if isinstance(n, (ast.ListComp, ast.SetComp, ast.DictComp, ast.GeneratorExp)):
+            # comprehension targets live in their own scope; walrus targets inside do not, but are not worth the trouble
+            continue
+        todo.extend(ast.iter_child_nodes(n))
+    return False
 
 
 def _as_load(t):
